@@ -17,23 +17,6 @@ type c01Scenario struct {
 	Max  int      `json:"max_ticks"`
 }
 
-// enumSeqs calls f for every sequence over alpha of length 1..L.
-func enumSeqs(alpha []string, L int, f func([]string)) {
-	var rec func(prefix []string)
-	rec = func(prefix []string) {
-		if len(prefix) > 0 {
-			f(append([]string(nil), prefix...))
-		}
-		if len(prefix) == L {
-			return
-		}
-		for _, a := range alpha {
-			rec(append(prefix, a))
-		}
-	}
-	rec(nil)
-}
-
 var c01Alphabet = []string{"w1", "w2", "we", "wx", "d", "df", "mf", "s1", "s0", "sb", "t1", "t2", "ts", "p", "g", "b", "bc", "f", "h", "n"}
 
 // c01Reduced keeps one representative per behaviour class for the deeper plans.
